@@ -58,8 +58,8 @@ pub fn from_value(v: &Value) -> J {
         Value::SmallUnsigned(x) => n!("SmallUnsigned", x),
         Value::Unsigned(x) => n!("Unsigned", x),
         Value::BigUnsigned(x) => n!("BigUnsigned", x),
-        Value::Float(x) => match x { Some(f) => json!({"t":"Float","v": f.to_string(), "bits": f.to_bits()}), None => json!({"t":"Float","null":true}) },
-        Value::Double(x) => match x { Some(f) => json!({"t":"Double","v": f.to_string(), "bits": f.to_bits().to_string()}), None => json!({"t":"Double","null":true}) },
+        Value::Float(x) => match x { Some(f) => json!({"t":"Float","v": f.to_string()}), None => json!({"t":"Float","null":true}) },
+        Value::Double(x) => match x { Some(f) => json!({"t":"Double","v": f.to_string()}), None => json!({"t":"Double","null":true}) },
         Value::String(x) => match x { Some(s) => json!({"t":"String","v": s.as_str()}), None => json!({"t":"String","null":true}) },
         Value::Char(x) => match x { Some(c) => json!({"t":"Char","v": c.to_string()}), None => json!({"t":"Char","null":true}) },
         Value::Bytes(x) => match x { Some(b) => json!({"t":"Bytes","v": hex(b)}), None => json!({"t":"Bytes","null":true}) },
